@@ -76,6 +76,7 @@ var (
 	errReadBadRequest           = errors.New("ntske received bad request error message")
 	errReadUnrecognisedCritical = errors.New("ntske received unrecognized critical error message")
 	errReadUnknown              = errors.New("ntske received unknown error message")
+	errReadAeadLen              = errors.New("ntske received AEAD algorithm record of unexpected length")
 )
 
 // RecordHdr is the header on all records exchanged in NTS-KE.
@@ -327,12 +328,17 @@ func ReadData(ctx context.Context, log *slog.Logger, reader *bufio.Reader, data 
 			}
 
 		case RecAead:
-			var aead uint16
-			err := binary.Read(reader, binary.BigEndian, &aead)
+			// The record carries a list of algorithms (a client's offer may
+			// have several); consume all of them and keep the first.
+			if msg.BodyLen < 2 || msg.BodyLen%2 != 0 {
+				return errReadAeadLen
+			}
+			aead := make([]uint16, msg.BodyLen/2)
+			err := binary.Read(reader, binary.BigEndian, aead)
 			if err != nil {
 				return err
 			}
-			data.Algo = aead
+			data.Algo = aead[0]
 
 		case RecCookie:
 			cookie := make([]byte, msg.BodyLen)
